@@ -95,11 +95,13 @@ def check(repo, run, tier):
     g(check_flag_tags, repo, run, 'C04.R6', tags={'!del', '!merge'})
     g(mr.promotion_table, repo, run, 'C04.R7')
     g(unitrules.clear_init, repo, run, 'C04.R8')
+    g(unitrules.clear_premerge, repo, run, 'C04.R8')
     g.done()
 
 
 def mutants(repo):
     return [
+        Mutant('clear-of-missing-target', lambda r: in_func(r, 'ClearNode.ayns.on_premerge_impl', "if node is None:", "if node is not None:"), ['C04.R8', 'C04.R5']),
         Mutant('clear-accepts-arguments', lambda r: in_func(r, 'ClearNode.__init__', "if value is not None:", "if value is None:"), ['C04.R8']),
         Mutant('F5-reverted-absolute-lookup-in-other', lambda r: in_func(r, 'ComposedNode.ayns.on_merge_impl', "get_first_not_missing_node(path[_prefix_len:])", "get_first_not_missing_node(path)"), ['C04.R1']),
         Mutant('prefilter-absolute-prefix', lambda r: in_func(r, 'ConfigList.ayns.on_merge_impl', "other.ayns.filter_nodes(keep_if_exists)", "other.ayns.filter_nodes(keep_if_exists, prefix=prefix)"), ['C04.R1']),
